@@ -50,7 +50,7 @@ STRATA = {
     "canonical_runs": (len(WRAPPERS) * len(BEHAVIOURS) * 6, len(WRAPPERS) * len(BEHAVIOURS) * 40),
 }
 REQUIRED_ORACLES = ["lifecycle_automaton", "rejected_call_no_side_effect", "resources_released", "clean_up_once", "results_match_tool",
-                    "cwd_unchanged_by_call", "launched_in_exec_dir"]
+                    "cwd_unchanged_by_call", "launched_in_exec_dir", "command_line_matches_setters"]
 ANCHORS = [
     "biotite.application.application:Application.start",
     "biotite.application.application:Application.cancel",
@@ -157,6 +157,8 @@ def setup(ctx):
 # ------------------------------------------------------------------ inputs
 def make_inputs(rng, kind):
     n = int(rng.integers(2, 7))
+    if rng.random() < 0.12:
+        n = int(rng.integers(10, 14))      # two-digit record labels
     if kind == "protein":
         letters = "ACDEFGHIKLMNPQRSTVWY"
         return [seqmod.ProteinSequence("".join(rng.choice(list(letters), size=int(rng.integers(1, 12))))) for _ in range(n)], None
@@ -221,6 +223,8 @@ class Case:
         self.state = "CREATED"
         self.ended = None          # how the run ended: joined | cancelled | timeout | join_failed | launch_failed
         self.pid = None
+        self.extra = []            # additional options accepted by the wrapper (setter in CREATED)
+        self.stubborn = False
 
     # -------------------------------------------------------------- helpers
     def tool_mode(self):
@@ -239,6 +243,23 @@ class Case:
                 return
             time.sleep(0.002)
         self.ctx.inconclusive("child %d did not exit within the watchdog" % self.pid)
+
+    def tool_runs(self):
+        """argv/cwd lines the fake tool logged for real runs (version probes excluded)."""
+        try:
+            lines = [l.rstrip("\n").split("\t") for l in open(self.fake_log) if l.strip()]
+        except OSError:
+            return []
+        return [l for l in lines if len(l) >= 4 and "-version" not in l[3].split("\x1f")[:1]]
+
+    def wait_tool_log(self):
+        """The stubborn tool installs its signal handlers before it writes its log line."""
+        for _ in range(2500):
+            if self.tool_runs():
+                self.ctx.note("stubborn_tool_running")
+                return
+            time.sleep(0.002)
+        self.ctx.note("stubborn_tool_log_not_seen")
 
     def snapshot(self):
         # RUNNING -> FINISHED is the lazy poll every state query performs once the tool has exited
@@ -270,6 +291,14 @@ class Case:
         AUDIT["events"] = []
         AUDIT["on"] = True
         CLEANUPS.clear()
+        if self.rng.random() < 0.5:
+            # a second wrapper object of the same process is configured and dropped before the judged one exists:
+            # nothing of it may show up in the judged run (makes cross-object leaks replayable from one case)
+            decoy = EchoApp(os.path.join(FIX, "echo"))
+            decoy.add_additional_options(["--vf-extra=decoy"])
+            decoy.set_exec_dir(WORK)
+            del decoy
+            self.ctx.op("decoy_wrapper_configured")
         if self.wrapper == "echo":
             self.inputs, self.matrix = None, None
             self.app = EchoApp(binpath)
@@ -303,6 +332,9 @@ class Case:
         except OSError:
             pass
         os.environ["VF_FAKE_LOG"] = self.fake_log
+        # half of the hanging tools ignore SIGTERM/SIGINT/SIGHUP: only a kill ends them
+        self.stubborn = self.tool_mode() == "hang" and self.rng.random() < 0.5
+        os.environ["VF_FAKE_IGNTERM"] = "1" if self.stubborn else ""
         self.exec_dir = None
         # the process may change its working directory between construction and start (a legal history)
         if self.rng.random() < 0.5:
@@ -380,6 +412,8 @@ class Case:
                 raise raised
             self.state = "RUNNING"
             self.pid = app._process.pid
+            if self.stubborn:
+                self.wait_tool_log()
         elif op in ("join", "join_timeout"):
             if self.tool_mode() == "hang":
                 # LocalApp.join raises the builtin TimeoutError, Application.join biotite's own class;
@@ -428,30 +462,35 @@ class Case:
                 self.exec_dir = d
             self.ctx.op("set_exec_dir")
         else:
-            self.app.add_additional_options([])
+            opts = [] if self.rng.random() < 0.3 else ["--vf-extra=%d.%d" % (self.ctx.index, len(self.extra))]
+            self.app.add_additional_options(opts)      # raises AppStateError outside CREATED
+            self.extra += opts
+            self.ctx.op("add_additional_options")
 
     def check_launch_dir(self):
         """The tool must have been started in the requested execution directory (default: cwd at construction)."""
         if self.tool_mode() == "hang" or self.pid is None:
             return
         self.wait_child()
-        try:
-            lines = [l.split("\t") for l in open(self.fake_log) if l.strip()]
-        except OSError:
-            return
-        runs = [l for l in lines if len(l) >= 4 and "-version" not in l[3].split("\x1f")[:1]]
+        runs = self.tool_runs()
         if not runs:
             return
         self.ctx.oracle("launched_in_exec_dir")
         want = self.exec_dir or self.cwd_at_construct
         if os.path.realpath(runs[-1][2]) != os.path.realpath(want):
             self.ctx.fail("launched_in_exec_dir", "tool ran in %s, execution directory is %s" % (runs[-1][2], want))
+        # the command line carries exactly the options this wrapper object was given - none from another
+        # wrapper object of the process, none from a rejected setter call
+        self.ctx.oracle("command_line_matches_setters")
+        seen = [a for a in runs[-1][3].split("\x1f") if a.startswith("--vf-extra=")]
+        if seen != self.extra:
+            self.ctx.fail("command_line_matches_setters", "tool was started with additional options %s, this wrapper was given %s" % (seen, self.extra))
 
     def check_results(self):
         ctx, app = self.ctx, self.app
         ctx.oracle("results_match_tool")
         if self.wrapper == "echo":
-            if app.result != "ECHO a b\n":
+            if app.result != "ECHO " + " ".join(self.extra + ["a", "b"]) + "\n":
                 ctx.fail("results_match_tool", "stdout %r" % (app.result,))
             if app.get_exit_code() != 0:
                 ctx.fail("results_match_tool", "exit code %r" % (app.get_exit_code(),))
